@@ -661,7 +661,12 @@ class Checker:
             "coverage": {
                 "explanation": "Static analysis (no code of /repo executed). Rules applied: " + "; ".join(
                     f"{rid} — {r['desc']} [{r['discharged']}/{r['obligations']} instances conform]" for rid, r in sorted(self.rules.items()))
-                    + (". NOT decided: " + "; ".join(self.not_decided) if self.not_decided else ""),
+                    + (". NOT decided: " + "; ".join(self.not_decided) if self.not_decided else "")
+                    + ((". Thorough tier controls (the same check re-run on scratch copies of the tree with one stored patch each; they never change the verdict): "
+                        + f"breaking changes reported {self.analysed['controls'].get('breaking_fired')}/{self.analysed['controls'].get('breaking_total')}, "
+                        + f"behaviour-preserving refactorings left silent {self.analysed['controls'].get('benign_silent')}/{self.analysed['controls'].get('benign_total')}, "
+                        + f"skipped (patch no longer applies / tree does not build) {len(self.analysed['controls'].get('skipped', []))}, "
+                        + f"missed {self.analysed['controls'].get('missed')}, false alarms {self.analysed['controls'].get('false_alarms')}") if isinstance(self.analysed.get("controls"), dict) and "breaking_total" in self.analysed.get("controls", {}) else ""),
                 "obligations": obligations,
                 "discharged": discharged,
                 "evaluations": max(obligations, 1),
